@@ -124,6 +124,18 @@ def rule_conversions(ctx, rid):
         ctx.passed(rid, pf, c)
     else:
         ctx.violation(rid, pf, c, 'found %s' % '; '.join(show(e.value)[:120] for e in exits))
+    from ..effects import MutationAnalysis
+    ma = MutationAnalysis(P)
+    for q in ('emd.spectra.freq_from_phase', 'emd.spectra.phase_from_freq', 'emd.spectra.frequency_transform',
+              'emd.utils.wrap_phase', 'emd.spectra.phase_from_complex_signal'):
+        f2 = P.func(q)
+        mp = ma.mutated_params(f2)
+        cc = '%s leaves its input arrays unchanged (a second conversion of the same profile gives the same result)' % f2.name
+        if mp:
+            formal, muts = sorted(mp.items())[0]
+            ctx.violation(rid, f2, cc, 'the caller\'s %s is overwritten: %s' % (formal, muts[0].what), node=muts[0].node)
+        else:
+            ctx.passed(rid, f2, cc)
     c = 'the two conversion coefficients multiply to one'
     if kf is not None and kp is not None and (kf * kp) == Poly.const(1):
         ctx.passed(rid, ff, c)
